@@ -20,7 +20,8 @@ PROPS = {
         assumptions=["the textbook reference solvers in props/c05_refsolvers.hpp (long double) are correct",
                      "Eigen's dense QR / eigenvalue / SVD routines are accurate on n<=40 matrices",
                      "the divergence between the reference recurrence run in double and in long double measures the rounding sensitivity of an iterate (used as part of the tolerance, iterates are compared only while it stays below 1e-12 relative)",
-                     "finite termination of BiCGStab, BiCGStab(L), IDR(s) is asserted on matrices with positive definite Hermitian part (mu>=0.1) only, with 2 extra iterations in double precision, and on the library templates instantiated for long double"],
+                     "finite termination of BiCGStab, BiCGStab(L), IDR(s) is asserted on matrices with positive definite Hermitian part (mu>=0.1) only, with 2 extra iterations (one sweep for BiCGStab(L)) in double precision and on the library templates instantiated for long double; CG with 2+n/8 extra iterations in double and the exact bound in long double",
+                     "known finding F-recursion-gap-c05 (class: bicgstabl/idrs with 64 u kappa2(A) kappa2(M) max(1,|r0|/|f|) > 1e-10): inside the class the clause is asserted for the attainable tolerance max(1e-10, 4x that level) instead"],
         min_nontrivial=400,
         timeout=dict(quick=900, thorough=4 * 3600),
     ),
